@@ -372,6 +372,7 @@ def gen_case(rnd, tier='quick'):
 
 class H(Harness):
     ID = 'C20'
+    ANCHOR_FILES = ['epydemic/pulsecoupled.py', 'epydemic/networkdynamics.py']
     TIE_IMPORT = 'From Coq Require Import Floats.\nFrom EpyV Require Import Model.Kernel Model.Pulse Tie.C20.\nOpen Scope Q_scope.'
     CHECK_FN = 'EpyV.Tie.C20.check_fcase'
     QUICK_N = 240
